@@ -38,42 +38,110 @@ Proof.
     destruct (0 <? r_n r); repeat split; lia.
 Qed.
 
-Lemma step_rd_begin : forall c s s' r, r_snap r = 0 -> Inv c s -> step c s (EvRdBegin r) = Ok s' -> Inv c s'.
+(* what the acceptor has checked of a Ready that carries an incoming snapshot *)
+Lemma ready_ok_snap : forall s r, 0 < r_snap r -> ready_ok s r = true ->
+  r_n r = 0 /\ r_cn r = 0 /\ r_hs r = true /\ r_commit r = r_snap r /\ rs_last s < r_snap r /\ published s < r_snap r
+  /\ lc_all_lt s (r_snap r) /\ has_flushed_state s = true.
 Proof.
-  intros c s s' r Hs0 HI H. start_step H hi HP HV.
+  intros s r Hs H. unfold ready_ok in H. assert (Q : (0 <? r_snap r) = true) by lia. rewrite Q in H.
+  apply andb_true_iff in H. destruct H as [_ H].
+  repeat (apply andb_true_iff in H; let X := fresh "X" in destruct H as [H X]).
+  assert (L : lc_all_lt s (r_snap r)).
+  { intros j Hj. unfold lc_images_lt in X0. rewrite forallb_forall in X0.
+    specialize (X0 j). rewrite in_seq in X0. specialize (X0 ltac:(lia)). lia. }
+  repeat split; try lia; auto.
+Qed.
+
+(* a hard state in the image that lost all buffered records is in every image *)
+Lemma flushed_state_of : forall s hi, PInv s hi -> has_flushed_state s = true -> flushed_state s.
+Proof.
+  intros s hi P H j Hj. unfold has_flushed_state in H. fold (has_state (all_recs (drop_tail (segs s) (unflushed s)))) in H.
+  destruct (p_tail _ _ P) as [pre [sl [body [tl [Ess [Esl [Etl [Hst _]]]]]]]].
+  rewrite Ess, drop_tail_snoc, all_recs_snoc in *. simpl in *. rewrite Esl in *.
+  rewrite <- Etl in H. replace (length (body ++ tl) - length tl)%nat with (length body) in H by (rewrite app_length; lia).
+  rewrite firstn_app, firstn_all, Nat.sub_diag in H. simpl in H. rewrite app_nil_r in H.
+  unfold has_state in *. rewrite existsb_app in *. apply orb_true_iff in H. apply orb_true_iff. destruct H as [H|H]; [left; exact H | right].
+  rewrite app_length. replace (length body + length tl - j)%nat with (length body + (length tl - j))%nat by lia.
+  rewrite firstn_app_2, existsb_app. apply orb_true_iff. left. exact H.
+Qed.
+
+Lemma step_rd_begin : forall c s s' r, Inv c s -> step c s (EvRdBegin r) = Ok s' -> Inv c s'.
+Proof.
+  intros c s s' r HI H. start_step H hi HP HV.
   apply negb_false_iff in E0. apply negb_false_iff in E1. rewrite E0 in HV.
-  destruct (ready_ok_spec _ _ Hs0 E1) as [R1 [R2 R3]].
-  exists hi. split.
-  - destruct HP. constructor; proj; auto. rewrite Hs0. change (0 <? 0) with false. cbv iota. lia.
-  - proj. unfold running in *. proj. destruct (rc s) eqn:R; try discriminate.
-    vinv_split HV. unfold rd_inv in *. proj. rewrite E in v_rd. destruct v_rd as [Hhi Hpub].
-    unfold rlast in *. proj.
-    split; [split; [|split]|split; [split; [|split; [|split]]|split]].
-    + intros Hn. destruct (R1 Hn) as [A [B _]]. repeat split; auto.
-      rewrite Hs0. change (0 <? 0) with false. cbv iota.
-      assert (Q : (0 <? r_n r) = true) by lia. rewrite Q. lia.
-    + intros Hn. apply R2. exact Hn.
-    + exact Hs0.
-    + exact Hhi.
-    + intros Hn. apply R1. exact Hn.
-    + intros Hh. destruct (R3 Hh) as [_ [A B]]. split; auto.
-    + intros Hn. apply R2. exact Hn.
-    + unfold pubcl. proj. split; [exact Hpub|]. intros Hn. destruct (R2 Hn) as [A [B _]]. lia.
-    + intros; discriminate.
+  unfold running in *. destruct (rc s) eqn:R; try discriminate.
+  assert (Hidle : hi = rs_last s /\ published s <= last_commit (all_recs (segs s))).
+  { destruct HV. unfold rd_inv in v_rd. rewrite E in v_rd. exact v_rd. }
+  assert (Hp0 : pend_idx s = 0) by (unfold pend_idx, pending; rewrite E; reflexivity).
+  destruct (0 <? r_snap r) eqn:Qs.
+  - (* a Ready with an incoming snapshot *)
+    assert (Hs : 0 < r_snap r) by (apply N.ltb_lt; exact Qs).
+    destruct (ready_ok_snap _ _ Hs E1) as [S1 [S2 [S3 [S4 [S5 [S6 [S7 S8]]]]]]].
+    exists hi. split.
+    + destruct HP. constructor; proj; auto. lia.
+    + unfold running. proj. rewrite R.
+      assert (Hp1 : pend_idx (set_proposed (set_rdseq (set_rdp s (RdBegun r false false)) (rdseq s + 1))
+                                 (N.max (proposed s) (r_snap r))) = r_snap r).
+      { unfold pend_idx, pending. proj. rewrite Qs. reflexivity. }
+      destruct HV. constructor; unfold snap_pend, snap_done, snap_busy in *; proj; rewrite ?Hp1; rewrite ?Hp0 in *; auto.
+      * unfold rd_inv. proj. rewrite Qs. destruct Hidle as [A B].
+        split; [unfold snapfacts; proj; repeat split; auto; lia|]. split; [exact S7|]. split; [exact (flushed_state_of s hi HP S8)|].
+        split; [exact B | exact S6].
+      * lia.
+      * destruct v_latest as [[A|[A _]] B]; [split; [left; exact A | exact B]|].
+        exfalso. unfold in_window in A. rewrite E in A. discriminate.
+      * eapply Forall_impl; [|exact v_queue]. simpl. intros b [Hb1 Hb2]. split; [exact Hb1|].
+        intros Hb. destruct (Hb2 Hb) as [_ [_ [X _]]]. lia.
+      * destruct (app s); auto; destruct v_app as [A1 [A2 A3]]; try (destruct A3 as [_ [X _]]; lia).
+        split; [exact A1|]. split; [exact A2|]. destruct A3 as [[_ [X _]]|A3]; [lia | right; exact A3].
+      * intros f Hf Hn. destruct (v_files f Hf Hn) as [X|[X _]]; [left; exact X | left].
+        exfalso. rewrite X in Hf. exact (p_nozero _ _ HP Hf).
+      * intros i Hi. destruct (v_unval i Hi) as [X|[X|[X X']]]; auto. lia.
+  - (* an ordinary Ready *)
+    assert (Hs0 : r_snap r = 0) by (apply N.ltb_ge in Qs; lia).
+    destruct (ready_ok_spec _ _ Hs0 E1) as [R1 [R2 R3]].
+    exists hi. split.
+    + destruct HP. constructor; proj; auto. lia.
+    + unfold running. proj. rewrite R.
+      assert (Hp1 : forall x, pend_idx (set_proposed (set_rdseq (set_rdp s (RdBegun r false false)) (rdseq s + 1)) x) = 0).
+      { intros x. unfold pend_idx, pending. proj. rewrite Qs. reflexivity. }
+      destruct HV. constructor; unfold snap_pend, snap_done, snap_busy in *; proj; rewrite ?Hp1; rewrite ?Hp0 in *; auto.
+      unfold rd_inv. proj. rewrite Qs. destruct Hidle as [Hhi Hpub]. unfold rlast in *. proj.
+      split; [split|split; [split; [|split; [|split]]|split]].
+      * intros Hn. destruct (R1 Hn) as [A [B _]]. repeat split; auto.
+        assert (Q : (0 <? r_n r) = true) by lia. rewrite Q. lia.
+      * intros Hn. apply R2. exact Hn.
+      * exact Hhi.
+      * intros Hn. apply R1. exact Hn.
+      * intros Hh. destruct (R3 Hh) as [_ [A B]]. split; auto.
+      * intros Hn. apply R2. exact Hn.
+      * unfold pubcl. proj. split; [exact Hpub|]. intros Hn. destruct (R2 Hn) as [A [B _]]. lia.
+      * intros; discriminate.
+      * destruct v_latest as [[A|[A _]] B]; [split; [left; exact A | exact B]|].
+        exfalso. unfold in_window in A. rewrite E in A. discriminate.
+      * intros f Hf Hn. destruct (v_files f Hf Hn) as [X|[X _]]; [left; exact X|].
+        exfalso. rewrite X in Hf. exact (p_nozero _ _ HP Hf).
 Qed.
 
 Lemma step_rd_save_before : forall c s s', Inv c s -> step c s EvRdSaveBefore = Ok s' -> Inv c s'.
 Proof.
   intros c s s' HI H. start_step H hi HP HV.
-  2:{ rd_unreachable HV E. }
-  exists hi. split; [pframe s|].
-  unfold running in *. proj. destruct (rc s) eqn:R; try (not_running HV).
-  vinv_split HV. unfold rd_inv, pubcl in *. proj. rewrite E in v_rd. exact v_rd.
+  - exists hi. split; [pframe s|].
+    unfold running in *. proj. destruct (rc s) eqn:R; try (not_running HV).
+    apply vinv_set_rdp; [exact HV | | pend_eq E | pend_eq E].
+    destruct HV. unfold rd_inv, pubcl in *. proj. rewrite E in v_rd. rewrite E1 in *. exact v_rd.
+  - (* the hard state of a Ready whose incoming snapshot has just been saved *)
+    exists hi. split; [pframe s|].
+    unfold running in *. proj. destruct (rc s) eqn:R; try (not_running HV).
+    pose proof (v_rd _ _ _ HV) as v_rd. unfold rd_inv in v_rd. rewrite E in v_rd. destruct v_rd as [Hs [F [L [Pb W]]]].
+    assert (Q : (0 <? r_snap r) = true) by (apply N.ltb_lt; exact Hs).
+    apply vinv_set_rdp; [exact HV | | pend_eq E | pend_eq E].
+    unfold rd_inv. proj. rewrite Q. auto.
 Qed.
 
 (* what appending the records of a Ready changes in the views the invariant takes of the WAL *)
-Lemma rr_markers : forall r, markers (ready_records r) = [].
-Proof. intros. rewrite ready_records_eq. apply markers_ents_state. Qed.
+Lemma rr_markers : forall r, pmarkers (ready_records r) = [].
+Proof. intros. rewrite ready_records_eq. apply pmarkers_ents_state. Qed.
 
 Lemma rr_entries : forall r, entries (ready_records r) = if 0 <? r_n r then range (r_first r - 1) (r_last r) else [].
 Proof. intros. rewrite ready_records_eq. apply entries_ents_state. Qed.
@@ -81,8 +149,14 @@ Proof. intros. rewrite ready_records_eq. apply entries_ents_state. Qed.
 Lemma save_newest : forall ss r, ss <> [] -> newest (app_tail ss (ready_records r)) = newest ss.
 Proof. intros. apply newest_app_tail_nomark; auto. apply rr_markers. Qed.
 
-Lemma save_markers : forall ss r, ss <> [] -> markers (all_recs (app_tail ss (ready_records r))) = markers (all_recs ss).
-Proof. intros. rewrite app_tail_recs by auto. rewrite markers_app, rr_markers, app_nil_r. reflexivity. Qed.
+Lemma save_markers : forall ss r, ss <> [] -> pmarkers (all_recs (app_tail ss (ready_records r))) = pmarkers (all_recs ss).
+Proof. intros. rewrite app_tail_recs by auto. rewrite pmarkers_app, rr_markers, app_nil_r. reflexivity. Qed.
+
+Lemma save_unvalidated : forall ss r, ss <> [] -> unvalidated (all_recs (app_tail ss (ready_records r))) = unvalidated (all_recs ss).
+Proof.
+  intros. rewrite app_tail_recs by auto. rewrite unvalidated_app, ready_records_eq.
+  rewrite (unvalidated_local _ (local_ents_state _ _ _)), app_nil_r. reflexivity.
+Qed.
 
 Lemma save_lc : forall ss r, ss <> [] ->
   last_commit (all_recs (app_tail ss (ready_records r))) = if r_hs r then r_commit r else last_commit (all_recs ss).
@@ -103,7 +177,7 @@ Proof. intros. apply nth_app_tail_first. Qed.
 
 Lemma pinv_last_entry : forall s hi, PInv s hi -> last_entry (all_recs (segs s)) = hi.
 Proof.
-  intros s hi P. eapply last_entry_chain; [apply (p_local _ _ P) | apply (p_chain _ _ P)|].
+  intros s hi P. eapply last_entry_chain_gen; [apply (p_jumps _ _ P) | apply (p_chain _ _ P)|].
   pose proof (p_first _ _ P) as F. pose proof (pinv_newest_le_hi _ _ P) as L.
   unfold lo_of, hd_first in *. lia.
 Qed.
@@ -116,8 +190,11 @@ Proof.
   match goal with G : (idx =? _) = true |- _ => rename G into G1 end.
   unfold running in *. proj. destruct (rc s) eqn:R; try (not_running HV).
   pose proof (pinv_segs_nonempty _ _ HP) as Hne.
-  pose proof HV as HV0. destruct HV0 as [v_rd _ _ _ v_ws _ _ _ _ _ _ _ _ _ _ _].
-  unfold rd_inv in v_rd. rewrite E in v_rd. destruct v_rd as [[F1 F2] [[Uhi [Uw [Uh Uc]]] [Pp Pov]]].
+  pose proof HV as HV0. destruct HV0 as [v_rd _ _ _ v_ws _ _ _ _ _ _ _ _ _ _ _ _].
+  unfold rd_inv in v_rd. rewrite E in v_rd.
+  match goal with G : (0 <? r_snap r) = false |- _ => rename G into Qs end. rewrite Qs in v_rd.
+  destruct v_rd as [[F1 F2] [[Uhi [Uw [Uh Uc]]] [Pp Pov]]].
+  assert (Hp0 : pend_idx s = 0) by (unfold pend_idx, pending; rewrite E, Qs; reflexivity).
   destruct (save_entries_range s r hi Uhi F1) as [Erange Lrange].
   assert (HP' : PInv (set_rdp (set_unsynced (set_unflushed (save_records s r) 0) (if opt_fsync c then unsynced (save_records s r) else 0%nat)) (RdCutting r pb idx)) (rlast s r)).
   { apply (pinv_save s _ hi (rlast s r) (if 0 <? r_n r then range (r_first r - 1) (r_last r) else []) (r_hs r) (r_commit r) true);
@@ -130,9 +207,17 @@ Proof.
   assert (Hlc' : last_commit (all_recs (app_tail (segs s) (ready_records r))) = if r_hs r then r_commit r else last_commit (all_recs (segs s))) by (apply save_lc; auto).
   assert (Hlcge : last_commit (all_recs (segs s)) <= last_commit (all_recs (app_tail (segs s) (ready_records r)))).
   { rewrite Hlc'. destruct (r_hs r) eqn:Qh; [apply Uh; reflexivity | lia]. }
-  vinv_split HV; rewrite ?save_newest, ?save_markers, ?app_tail_length, ?nth_sfirst_app_tail by auto; try assumption.
+  pose proof (vinv_app_inv _ _ _ HV) as Hai. pose proof (vinv_queue_inv _ _ _ HV) as Hqi.
+  match goal with |- VInv c ?st _ => set (s1 := st) end.
+  assert (Hp1 : pend_idx s1 = 0) by (unfold pend_idx, pending, s1; proj; rewrite Qs; reflexivity).
+  assert (Hai' : app_inv s1 (rlast s r)).
+  { apply (app_inv_grow s s1 hi (rlast s r)); auto; unfold s1; proj; auto. apply save_newest; auto. }
+  assert (Hqi' : queue_inv s1 (rlast s r)) by (apply (queue_inv_grow s s1 hi (rlast s r)); auto).
+  unfold app_inv, queue_inv, snap_pend, snap_done in Hai', Hqi'. rewrite Hp1 in Hai', Hqi'. unfold s1 in *. clear s1. proj.
+  vinv_split HV; unfold snap_pend, snap_done in *; proj; pend_goal0 Qs; rewrite ?Hp0 in *;
+    rewrite ?save_newest, ?save_markers, ?save_unvalidated, ?app_tail_length, ?nth_sfirst_app_tail by auto; try assumption.
   - (* raft loop *)
-    unfold rd_inv. proj. unfold rlast in *. proj.
+    unfold rd_inv. proj. rewrite Qs. unfold rlast in *. proj.
     split; [split; assumption|]. split; [split|].
     + reflexivity.
     + intros Hcn. rewrite Hlc'. specialize (Uc Hcn). destruct (r_hs r); [exact Uc|]. destruct v_ws. lia.
@@ -146,18 +231,26 @@ Proof.
            ++ destruct (0 <? r_cn r) eqn:Qc; [exact Pp | lia].
            ++ destruct Pp as [Pp1 Pp2]. split; [lia | exact Pp2].
   - lia.
+  - destruct v_latest as [[A|[A _]] B]; [split; [left; exact A | exact B]|].
+    exfalso. unfold in_window in A. rewrite E, Qs in A. discriminate.
   - (* wstate *)
     destruct v_wstate as [W1 W2]. rewrite Hlc'. split.
     + intros Hw. destruct (r_hs r) eqn:Qh; [reflexivity|]. rewrite orb_false_r in Hw. auto.
     + destruct (r_hs r); lia.
   - destruct v_done as [D1 [D2 D3]]. repeat split; lia.
+  - rewrite ?save_newest in Hai' by auto. exact Hai'.
+  - files_local.
+  - apply (ck_inv_grow s hi (rlast s r)); assumption.
 Qed.
 
 Lemma newest_snoc_state : forall ss x c, newest (ss ++ [mkSeg x [RState c]]) = newest ss.
-Proof. intros. unfold newest. rewrite all_recs_snoc, markers_app. simpl. rewrite app_nil_r. reflexivity. Qed.
+Proof. intros. unfold newest. rewrite all_recs_snoc, pmarkers_app. simpl. rewrite app_nil_r. reflexivity. Qed.
 
-Lemma markers_snoc_state : forall ss x c, markers (all_recs (ss ++ [mkSeg x [RState c]])) = markers (all_recs ss).
-Proof. intros. rewrite all_recs_snoc, markers_app. simpl. rewrite app_nil_r. reflexivity. Qed.
+Lemma markers_snoc_state : forall ss x c, pmarkers (all_recs (ss ++ [mkSeg x [RState c]])) = pmarkers (all_recs ss).
+Proof. intros. rewrite all_recs_snoc, pmarkers_app. simpl. rewrite app_nil_r. reflexivity. Qed.
+
+Lemma unvalidated_snoc_state : forall ss x c, unvalidated (all_recs (ss ++ [mkSeg x [RState c]])) = unvalidated (all_recs ss).
+Proof. intros. rewrite all_recs_snoc, unvalidated_app. simpl. rewrite app_nil_r. reflexivity. Qed.
 
 Lemma lc_snoc_state : forall ss x c, last_commit (all_recs (ss ++ [mkSeg x [RState c]])) = c.
 Proof. intros. rewrite all_recs_snoc. simpl. apply last_commit_snoc_state. Qed.
@@ -172,20 +265,26 @@ Proof.
   match goal with G : (idx =? _) = true |- _ => rename G into G1 end.
   unfold running in *. proj. destruct (rc s) eqn:R; try (not_running HV).
   pose proof (pinv_segs_nonempty _ _ HP) as Hne.
-  pose proof HV as HV0. destruct HV0 as [v_rd _ _ _ v_ws _ _ _ _ _ _ _ _ _ _ _].
-  unfold rd_inv in v_rd. rewrite E in v_rd. destruct v_rd as [F [[Shi Sc] [Hidx [Huf [Hws Pp]]]]].
+  pose proof HV as HV0. destruct HV0 as [v_rd _ _ _ v_ws _ _ _ _ _ _ _ _ _ _ _ _].
+  unfold rd_inv in v_rd. rewrite E in v_rd. destruct (0 <? r_snap r) eqn:Qs; [contradiction|].
+  destruct v_rd as [F [[Shi Sc] [Hidx [Huf [Hws Pp]]]]].
+  assert (Hp0 : pend_idx s = 0) by (unfold pend_idx, pending; rewrite E, Qs; reflexivity).
   rewrite Hws in *. destruct v_ws as [W1 W2]. specialize (W1 eq_refl).
   assert (Ei : idx = hi + 1) by lia. subst idx.
   exists hi. split.
   - eapply (pinv_cut s _ hi (wcommit s)); eauto; try reflexivity.
   - unfold running. proj. rewrite R.
-    vinv_split HV; rewrite ?newest_snoc_state, ?markers_snoc_state, ?lc_snoc_state, ?app_length; try assumption.
-    + unfold rd_inv. proj. rewrite lc_snoc_state. unfold rlast in *. proj.
+    vinv_split HV; unfold snap_pend, snap_done in *; proj; pend_goal0 Qs; rewrite ?Hp0 in *;
+      rewrite ?newest_snoc_state, ?markers_snoc_state, ?unvalidated_snoc_state, ?lc_snoc_state, ?app_length; try assumption.
+    + unfold rd_inv. proj. rewrite Qs. rewrite lc_snoc_state. unfold rlast in *. proj.
       split; [exact F|]. split; [split; [exact Shi | intros; rewrite W1; auto]|]. split; [exact Hws|].
       unfold pubcl in *. proj. rewrite W1. exact Pp.
     + destruct v_nrel as [N1 N2]. split; [simpl; lia|]. rewrite nth_sfirst_snoc by exact N1. exact N2.
+    + destruct v_latest as [[A|[A _]] B]; [split; [left; exact A | exact B]|].
+      exfalso. unfold in_window in A. rewrite E, Qs in A. discriminate.
     + split; [intros; reflexivity | lia].
     + rewrite <- W1 in v_done. exact v_done.
+    + files_local.
 Qed.
 
 (* a flush: the buffered records reach the file *)
@@ -195,12 +294,34 @@ Lemma pinv_flush : forall s s' hi,
   PInv s' hi.
 Proof.
   intros s s' hi P Es Eu Esf Eck Eac Epr.
-  destruct P as [C Ha Hp Ht Hh Hcm Hni Hf Hfile Hz Hnd Hfl Hck Hloc].
+  destruct P as [C Ha Hp Ht Hh Hcm Hni Hf Hfile Hz Hnd Hfl Hck Hjm].
   destruct Ht as [pre [sl [body [tl [Ess [Esl [Etl [Hst Hhead]]]]]]]].
   constructor; rewrite ?Es, ?Esf, ?Eck, ?Eac, ?Epr, ?Eu; auto.
   - exists pre, sl, (body ++ tl), []. rewrite app_nil_r. repeat split; auto.
     intros Hp'. destruct (Hhead Hp') as [c0 [b' Eb]]. rewrite Eb. simpl. eauto.
   - intros j Hj. assert (j = 0%nat) by lia. subst j. apply Hcm. lia.
+  - intros f Hfin. destruct (Hfl f Hfin) as [A|A]; [left; exact A | right].
+    intros j Hj. rewrite Eu in Hj. assert (j = 0%nat) by lia. subst j. rewrite Es. apply A. lia.
+Qed.
+
+(* the state x differs from s in the WAL, the WAL state, the raft loop's pc (and in unflushed / unsynced) *)
+Definition save_frame (s x : state) (r : ready) (ss : list seg) (ws : bool) (wc hc : N) (pc : rd_pc) : Prop :=
+  segs x = ss /\ rc x = rc s /\ wstate x = ws /\ wcommit x = wc /\ hcommit x = hc /\
+  latest x = latest s /\ rs_last x = rs_last s /\ published x = published s /\ rd_done x = rd_done s /\ queue x = queue s /\
+  app x = app s /\ applied x = applied s /\ snapi x = snapi s /\ sns x = sns s /\ ckp x = ckp s /\ pg_snap x = pg_snap s /\
+  nrel x = nrel s /\ snapfiles x = snapfiles s /\ ckpts x = ckpts s /\ engine x = engine s /\ proposed x = proposed s /\
+  pg_wal x = pg_wal s /\ cache x = cache s /\ restoring x = restoring s /\ rdp x = pc.
+
+Ltac frame_eqs X :=
+  destruct X as [X1 [X2 [X3 [X4 [X5 [X6 [X7 [X8 [X9 [X10 [X11 [X12 [X13 [X14 [X15 [X16 [X17 [X18 [X19 [X20 [X21 [X23 [X24 [X25 X22]]]]]]]]]]]]]]]]]]]]]]]].
+
+Lemma snap_tail_app : forall s x hi i rs, segs s <> [] -> segs x = app_tail (segs s) rs -> forallb tail_rec rs = true ->
+  snap_tail s hi i -> snap_tail x hi i.
+Proof.
+  intros s x hi i rs Hne Es Hrs [pre [sl [a [b [E1 [E2 E3]]]]]]. rewrite E1 in Es. rewrite app_tail_snoc in Es.
+  exists pre, (mkSeg (sfirst sl) (srecs sl ++ rs)), a, (b ++ rs). split; [exact Es|]. split.
+  - simpl. rewrite E2, <- app_assoc. reflexivity.
+  - rewrite forallb_app, E3, Hrs. reflexivity.
 Qed.
 
 Lemma step_rd_save_after : forall c s s', Inv c s -> step c s EvRdSaveAfter = Ok s' -> Inv c s'.
@@ -208,8 +329,57 @@ Proof.
   intros c s s' HI H. start_step H hi HP HV.
   unfold running in *. proj. destruct (rc s) eqn:R; try (not_running HV).
   pose proof (pinv_segs_nonempty _ _ HP) as Hne.
-  pose proof HV as HV0. destruct HV0 as [v_rd _ _ _ v_ws _ _ _ _ _ _ _ _ _ _ _].
+  pose proof (v_rd _ _ _ HV) as v_rd. pose proof (v_wstate _ _ _ HV) as v_ws.
   unfold rd_inv in v_rd. rewrite E in v_rd.
+  pose proof (vinv_app_inv _ _ _ HV) as Hai. pose proof (vinv_queue_inv _ _ _ HV) as Hqi.
+  destruct (0 <? r_snap r) eqn:Qs.
+  { (* the hard state of a Ready with an incoming snapshot: the snapshot's record becomes valid once it is in the file *)
+    destruct apd; [contradiction|]. destruct v_rd as [Hpb [SF [Lc [Pb W]]]]. subst pb.
+    destruct SF as [Sn [Scn [Shs [Scm [Shi [Slt Spr]]]]]].
+    assert (Hrr : ready_records r = [RState (r_snap r)]).
+    { rewrite ready_records_eq. assert (Q : (0 <? r_n r) = false) by lia. rewrite Q, Shs, Scm. reflexivity. }
+    set (ms := (0 <? r_n r) || r_hs r && r_tv r).
+    assert (Hp0 : pend_idx s = r_snap r) by (unfold pend_idx, pending; rewrite E, Qs; reflexivity).
+    assert (Hlc' : last_commit (all_recs (app_tail (segs s) (ready_records r))) = r_snap r).
+    { rewrite save_lc by auto. rewrite Shs. exact Scm. }
+    assert (G : forall x : state,
+               save_frame s x r (app_tail (segs s) (ready_records r)) (wstate s || r_hs r)
+                          (if r_hs r then r_commit r else wcommit s) (if r_hs r then r_commit r else hcommit s) (RdBegun r true true) ->
+               unflushed x = (if ms then 0 else unflushed s + length (ready_records r))%nat -> acked x = acked s ->
+               PInv x hi /\ (if running x then VInv c x hi else RInv x)).
+    { intros x X Xu Xa. frame_eqs X. split.
+      - apply (pinv_save s x hi hi [] true (r_snap r) ms); auto.
+        + rewrite X1, Hrr. reflexivity.
+        + rewrite Xu, Hrr. reflexivity.
+        + rewrite range_nil by lia. reflexivity.
+        + lia.
+        + destruct HP; lia.
+        + intros _. specialize (Lc 0%nat ltac:(lia)). rewrite drop_tail_0 in Lc. lia.
+      - unfold running. rewrite X2, R.
+        assert (Hpx : pend_idx x = r_snap r) by (unfold pend_idx, pending; rewrite X22, Qs; reflexivity).
+        destruct HV. constructor; unfold snap_pend, snap_done, snap_busy in *; rewrite ?Hpx; rewrite ?Hp0 in *; rewrite ?X1, ?X3, ?X4, ?X5, ?X6, ?X7, ?X8, ?X9, ?X10, ?X11, ?X12, ?X13, ?X14, ?X15, ?X16, ?X17, ?X18, ?X19, ?X20, ?X21, ?X23, ?X24, ?X25;
+          rewrite ?save_newest, ?save_markers, ?save_unvalidated, ?app_tail_length, ?nth_sfirst_app_tail by auto; auto.
+        + (* raft loop *)
+          unfold rd_inv. rewrite X22, Qs. split; [reflexivity|].
+          split; [unfold snapfacts; rewrite X7, X21; repeat split; auto|]. split; [rewrite X8; exact Pb|].
+          destruct W as [W1 [W2 [W4 W5]]].
+          split; [unfold window, ckpt_ok; rewrite X19, X18, X11; repeat split; auto; eapply (snap_tail_app s x); eauto; rewrite Hrr; reflexivity|].
+          split; [rewrite X1; exact Hlc'|].
+          intros j Hj. rewrite X1, Hrr.
+          destruct (exists_last_seg (segs s) Hne) as [pre [sl Es]]. rewrite Es.
+          assert (Hj1 : (length [RState (r_snap r)] <= j)%nat) by (cbn [length]; lia).
+          rewrite drop_tail_app_tail_ge by exact Hj1. rewrite <- Es. apply Lc. rewrite Xu, Hrr in Hj. cbn [length] in *. destruct ms; lia.
+        + destruct v_latest as [[A|[A A']] B]; (split; [|exact B]); [left; exact A | right].
+          split; [unfold in_window; rewrite X22, Qs; reflexivity | exact A'].
+        + (* wstate *)
+          destruct v_wstate as [A B]. rewrite Hlc', Shs, Scm. split; [intros; reflexivity | lia]. 
+        + (* done *)
+          destruct v_done as [D1 [D2 D3]]. rewrite Hlc'. repeat split; lia.
+        + intros f Hf Hn. destruct (v_files f Hf Hn) as [A|[A A']]; [left; exact A | right].
+          split; [exact A | unfold in_window; rewrite X22, Qs; reflexivity]. }
+    fold ms. destruct ms; [destruct (negb (opt_fsync c) || r_hs r && r_tv r)|]; simpl;
+      match goal with |- Inv c ?st => destruct (G st) as [G1 G2]; [unfold save_frame; proj; repeat split; reflexivity | proj; reflexivity | reflexivity | exists hi; split; assumption] end. }
+  assert (Hp0 : pend_idx s = 0) by (unfold pend_idx, pending; rewrite E, Qs; reflexivity).
   destruct apd.
   - (* the records were encoded before the cut: only the flush remains *)
     destruct v_rd as [F [[Shi Sc] [Hws Pp]]].
@@ -217,20 +387,21 @@ Proof.
     + destruct ((0 <? r_n r) || r_hs r && r_tv r) eqn:MS.
       * destruct (negb (opt_fsync c) || r_hs r && r_tv r); simpl; apply (pinv_flush s); auto.
       * simpl. pframe s.
-    + assert (G : forall x : state, segs x = segs s -> rc x = rc s -> wstate x = wstate s -> wcommit x = wcommit s -> hcommit x = hcommit s ->
-                latest x = latest s -> rs_last x = rs_last s -> published x = published s -> rd_done x = rd_done s -> queue x = queue s ->
-                app x = app s -> applied x = applied s -> snapi x = snapi s -> sns x = sns s -> ckp x = ckp s -> pg_snap x = pg_snap s ->
-                nrel x = nrel s -> snapfiles x = snapfiles s -> ckpts x = ckpts s -> engine x = engine s -> proposed x = proposed s ->
-                pg_wal x = pg_wal s -> cache x = cache s -> restoring x = restoring s -> rdp x = RdBegun r true pb ->
-                (if running x then VInv c x hi else RInv x)).
-      { intros x X1 X2 X3 X4 X5 X6 X7 X8 X9 X10 X11 X12 X13 X14 X15 X16 X17 X18 X19 X20 X21 X23 X24 X25 X22.
-        unfold running. rewrite X2, R.
-        destruct HV. constructor; rewrite ?X1, ?X3, ?X4, ?X5, ?X6, ?X7, ?X8, ?X9, ?X10, ?X11, ?X12, ?X13, ?X14, ?X15, ?X16, ?X17, ?X18, ?X19, ?X20, ?X21, ?X23, ?X24, ?X25; auto.
-        unfold rd_inv. rewrite X22, X1, X8. unfold rlast in *. rewrite X7, X21. unfold pubcl in *. rewrite X8. clear X1 X2 X3 X4 X5 X6 X7 X8 X9 X10 X11 X12 X13 X14 X15 X16 X17 X18 X19 X20 X21 X22 X23 X24 X25.
+    + assert (G : forall x : state,
+                 save_frame s x r (segs s) (wstate s) (wcommit s) (hcommit s) (RdBegun r true pb) ->
+                 (if running x then VInv c x hi else RInv x)).
+      { intros x X. frame_eqs X. unfold running. rewrite X2, R.
+        assert (Hpx : pend_idx x = 0) by (unfold pend_idx, pending; rewrite X22, Qs; reflexivity).
+        destruct HV. constructor; unfold snap_pend, snap_done, snap_busy in *; rewrite ?Hpx; rewrite ?Hp0 in *; rewrite ?X1, ?X3, ?X4, ?X5, ?X6, ?X7, ?X8, ?X9, ?X10, ?X11, ?X12, ?X13, ?X14, ?X15, ?X16, ?X17, ?X18, ?X19, ?X20, ?X21, ?X23, ?X24, ?X25; auto.
+        unfold rd_inv. rewrite X22, Qs, X1, X8. unfold rlast in *. rewrite X7, X21. unfold pubcl in *. rewrite X8.
+        2:{ destruct v_latest as [[A|[A _]] B]; [split; [left; exact A | exact B]|].
+            exfalso. unfold in_window in A. rewrite E, Qs in A. discriminate. }
+        2:{ files_local. }
         split; [exact F|]. split; [split; assumption|]. split.
         - destruct pb; [|tauto]. destruct (0 <? r_cn r) eqn:Qc; [rewrite Pp; apply Sc; lia | exact Pp].
         - exact Pp. }
-      destruct ((0 <? r_n r) || r_hs r && r_tv r); destruct (negb (opt_fsync c) || r_hs r && r_tv r); simpl; apply G; reflexivity.
+      destruct ((0 <? r_n r) || r_hs r && r_tv r); destruct (negb (opt_fsync c) || r_hs r && r_tv r); simpl; apply G;
+        unfold save_frame; proj; repeat split; reflexivity.
   - (* plain save *)
     destruct v_rd as [[F1 F2] [[Uhi [Uw [Uh Uc]]] [Pp Pov]]].
     destruct (save_entries_range s r hi Uhi F1) as [Erange Lrange].
@@ -248,22 +419,20 @@ Proof.
       - intros Hh. apply Uh. exact Hh. }
     exists (rlast s r). split.
     + fold ms. destruct ms eqn:MS; [destruct (negb (opt_fsync c) || r_hs r && r_tv r)|]; simpl; apply HPs; proj; try reflexivity; rewrite ?MS; reflexivity.
-    + assert (G : forall x : state, segs x = app_tail (segs s) (ready_records r) -> rc x = rc s ->
-                wstate x = (wstate s || r_hs r) -> wcommit x = (if r_hs r then r_commit r else wcommit s) ->
-                hcommit x = (if r_hs r then r_commit r else hcommit s) ->
-                latest x = latest s -> rs_last x = rs_last s -> published x = published s -> rd_done x = rd_done s -> queue x = queue s ->
-                app x = app s -> applied x = applied s -> snapi x = snapi s -> sns x = sns s -> ckp x = ckp s -> pg_snap x = pg_snap s ->
-                nrel x = nrel s -> snapfiles x = snapfiles s -> ckpts x = ckpts s -> engine x = engine s -> proposed x = proposed s ->
-                pg_wal x = pg_wal s -> cache x = cache s -> restoring x = restoring s -> rdp x = RdBegun r true pb ->
-                (if running x then VInv c x (rlast s r) else RInv x)).
-      { intros x X1 X2 X3 X4 X5 X6 X7 X8 X9 X10 X11 X12 X13 X14 X15 X16 X17 X18 X19 X20 X21 X23 X24 X25 X22.
-        unfold running. rewrite X2, R.
-        destruct HV. constructor; rewrite ?X1, ?X3, ?X4, ?X5, ?X6, ?X7, ?X8, ?X9, ?X10, ?X11, ?X12, ?X13, ?X14, ?X15, ?X16, ?X17, ?X18, ?X19, ?X20, ?X21, ?X23, ?X24, ?X25;
-          rewrite ?save_newest, ?save_markers, ?app_tail_length, ?nth_sfirst_app_tail by auto; auto;
-          try (unfold rd_inv; rewrite X22, X1, X8; unfold rlast in *; rewrite X7, X21; rewrite Hlc'; unfold pubcl in *; rewrite X8);
+    + assert (G : forall x : state,
+                 save_frame s x r (app_tail (segs s) (ready_records r)) (wstate s || r_hs r)
+                            (if r_hs r then r_commit r else wcommit s) (if r_hs r then r_commit r else hcommit s) (RdBegun r true pb) ->
+                 (if running x then VInv c x (rlast s r) else RInv x)).
+      { intros x X. frame_eqs X. unfold running. rewrite X2, R.
+        assert (Hpx : pend_idx x = 0) by (unfold pend_idx, pending; rewrite X22, Qs; reflexivity).
+        assert (Hai' : app_inv x (rlast s r)).
+        { apply (app_inv_grow s x hi (rlast s r)); auto. rewrite X1. apply save_newest; auto. }
+        assert (Hqi' : queue_inv x (rlast s r)) by (apply (queue_inv_grow s x hi (rlast s r)); auto).
+        destruct HV. constructor; try exact Hai'; try exact Hqi'; unfold snap_pend, snap_done, snap_busy in *; rewrite ?Hpx; rewrite ?Hp0 in *; rewrite ?X1, ?X3, ?X4, ?X5, ?X6, ?X7, ?X8, ?X9, ?X10, ?X11, ?X12, ?X13, ?X14, ?X15, ?X16, ?X17, ?X18, ?X19, ?X20, ?X21, ?X23, ?X24, ?X25;
+          rewrite ?save_newest, ?save_markers, ?save_unvalidated, ?app_tail_length, ?nth_sfirst_app_tail by auto; auto;
+          try (unfold rd_inv; rewrite X22, Qs, X1, X8; unfold rlast in *; rewrite X7, X21; rewrite Hlc'; unfold pubcl in *; rewrite X8);
           clear X1 X2 X3 X4 X5 X6 X7 X8 X9 X10 X11 X12 X13 X14 X15 X16 X17 X18 X19 X20 X21 X22 X23 X24 X25.
-        - 
-          split; [split; assumption|]. split; [split|].
+        - split; [split; assumption|]. split; [split|].
           + reflexivity.
           + intros Hcn. specialize (Uc Hcn). destruct (r_hs r); [exact Uc|]. destruct v_ws. lia.
           + assert (Hcl : 0 < r_cn r -> r_clast r <= (if r_hs r then r_commit r else last_commit (all_recs (segs s)))).
@@ -278,11 +447,15 @@ Proof.
               -- destruct (0 <? r_cn r) eqn:Qc; [exact Pp | lia].
               -- destruct Pp as [Pp1 Pp2]. split; [lia | exact Pp2].
         - lia.
+        - destruct v_latest as [[A|[A _]] B]; [split; [left; exact A | exact B]|].
+          exfalso. unfold in_window in A. rewrite E, Qs in A. discriminate.
         - destruct v_wstate as [W1 W2]. rewrite Hlc'. split.
           + intros Hw. destruct (r_hs r) eqn:Qh; [reflexivity|]. rewrite orb_false_r in Hw. auto.
           + destruct (r_hs r); lia.
-        - destruct v_done as [D1 [D2 D3]]. repeat split; lia. }
-      fold ms. destruct ms; [destruct (negb (opt_fsync c) || r_hs r && r_tv r)|]; simpl; apply G; reflexivity.
+        - destruct v_done as [D1 [D2 D3]]. repeat split; lia.
+        - files_local.
+        - apply (ck_inv_grow s hi (rlast s r)); assumption. }
+      fold ms. destruct ms; [destruct (negb (opt_fsync c) || r_hs r && r_tv r)|]; simpl; apply G; unfold save_frame; proj; repeat split; reflexivity.
 Qed.
 
 Lemma overlap_false_clast : forall s r, overlap r = false -> 0 < r_cn r ->
@@ -299,53 +472,123 @@ Proof.
   match goal with G : persist_first c && overlap r && negb sv = false |- _ => rewrite Hfx in G; simpl in G; rename G into Gov end.
   exists hi. split; [pframe s|].
   unfold running in *. proj. destruct (rc s) eqn:R; try (not_running HV).
-  pose proof HV as HV0. destruct HV0 as [v_rd _ _ _ _ _ _ _ _ _ _ _ _ _ _ _].
+  pose proof (v_rd _ _ _ HV) as v_rd.
   unfold rd_inv in v_rd. rewrite E in v_rd.
-  assert (Hs0 : r_snap r = 0) by (destruct sv; destruct v_rd as [[_ [_ X]] _]; exact X).
-  rewrite Hs0. change (0 <? 0) with false. cbv iota.
-  assert (Hpubge : published s <= (if 0 <? r_cn r then r_clast r else published s)
-                   /\ (if 0 <? r_cn r then r_clast r else published s) <= hi
-                   /\ (sv = true -> (if 0 <? r_cn r then r_clast r else published s) <= last_commit (all_recs (segs s)))).
-  { destruct HV. destruct sv.
-    - destruct v_rd as [[F1 [F2 F3]] [[Shi Sc] [Pl Pp]]]. unfold pubcl in Pp. destruct Pp as [Pp1 Pp2].
-      destruct (0 <? r_cn r) eqn:Qc; [|repeat split; auto; lia].
-      specialize (F2 ltac:(lia)). specialize (Sc ltac:(lia)). specialize (Pp2 ltac:(lia)). repeat split; auto; lia.
-    - destruct v_rd as [[F1 [F2 F3]] [[Uhi [Uw [Uh Uc]]] [Pp Pov]]]. unfold pubcl in Pp. destruct Pp as [Pp1 Pp2].
-      destruct (0 <? r_cn r) eqn:Qc; [|split; [lia|]; split; [lia|]; intros; discriminate].
-      assert (Ho : overlap r = false) by (destruct (overlap r); simpl in Gov; [discriminate | reflexivity]).
-      pose proof (overlap_false_clast s r Ho ltac:(lia) (fun h => proj1 (F1 h)) (F2 ltac:(lia))).
-      specialize (Pp2 ltac:(lia)). split; [lia|]. split; [lia|]. intros; discriminate. }
-  destruct Hpubge as [G1 [G2 G3]].
-  vinv_split HV.
-  - unfold rd_inv, pubcl in *. proj. unfold rlast in *. proj. destruct sv.
-    + destruct v_rd as [Fx [Sx [Pl Pp]]]. split; [exact Fx|]. split; [exact Sx|]. split; [apply G3; reflexivity|].
-      destruct (0 <? r_cn r); [reflexivity | apply G3; reflexivity].
-    + destruct v_rd as [Fx [Ux [Pp Pov]]]. split; [exact Fx|]. split; [exact Ux|]. split.
-      * destruct (0 <? r_cn r); [reflexivity | tauto].
-      * intros _. destruct (overlap r); simpl in Gov; [discriminate | reflexivity].
-  - destruct v_done as [D1 [D2 D3]]. repeat split; lia.
-  - apply Forall_app. split.
-    + eapply Forall_impl; [|exact v_queue]. simpl. intros b [[Hb|Hb] Hb0]; (split; [|exact Hb0]); [left; exact Hb | right; lia].
-    + constructor; [|constructor]. simpl. split; [|reflexivity]. destruct (0 <? r_cn r) eqn:Qc; [right; lia | left; lia].
-  - lia.
-  - destruct (app s); try assumption. destruct v_app as [A1 [A2|A2]]; split; auto. right. lia.
+  pose proof (vinv_app_inv _ _ _ HV) as Hai. pose proof (vinv_queue_inv _ _ _ HV) as Hqi.
+  match goal with |- VInv c ?st _ => set (s1 := st) end.
+  destruct (0 <? r_snap r) eqn:Qs.
+  - (* the incoming snapshot goes to the apply loop *)
+    destruct sv; [destruct v_rd as [X _]; discriminate|]. destruct v_rd as [SF [Lc [Fs [Pl Plt]]]].
+    assert (Hp0 : pend_idx s = r_snap r) by (unfold pend_idx, pending; rewrite E, Qs; reflexivity).
+    assert (Hp1 : pend_idx s1 = r_snap r) by (unfold pend_idx, pending, s1; proj; rewrite Qs; reflexivity).
+    assert (Hpub1 : published s1 = r_snap r) by (unfold s1; proj; rewrite ?Qs; reflexivity).
+    assert (Hai' : app_inv s1 hi).
+    { apply (app_inv_pub s s1 hi); auto; try (unfold s1; proj; reflexivity); try lia. }
+    assert (Hqi' : queue_inv (set_queue s1 (queue s)) hi).
+    { apply (queue_inv_pub s (set_queue s1 (queue s)) hi); auto; try (unfold s1; proj; reflexivity); try lia.
+      all: try (unfold pend_idx, pending, s1; proj; rewrite ?E, ?Qs; reflexivity).
+      all: try (unfold s1; proj; rewrite ?Qs; lia). }
+    destruct SF as [Sn [Scn [Shs [Scm [Shi [Slt Spr]]]]]].
+    assert (Hp1q : pend_idx (set_queue s1 (queue s)) = r_snap r) by (unfold pend_idx, pending, s1; proj; rewrite ?Qs; reflexivity).
+    unfold app_inv, queue_inv, snap_pend, snap_done in Hai', Hqi'. rewrite Hp1 in Hai'. rewrite Hp1q in Hqi'. unfold s1 in *. clear s1. proj. rewrite ?Qs in *.
+    vinv_split HV; unfold snap_pend, snap_done in *; proj; rewrite ?Qs;
+      repeat match goal with |- context [pend_idx ?t] => tryif is_var t then fail else replace (pend_idx t) with (r_snap r) by (unfold pend_idx, pending; proj; rewrite ?Qs; reflexivity) end;
+      rewrite ?Hp0 in *; try assumption.
+    + unfold rd_inv. proj. rewrite Qs. unfold snapfacts in *. proj. repeat split; auto.
+    + lia.
+    + destruct v_latest as [[A|[A _]] B]; [split; [left; exact A | exact B]|].
+      exfalso. unfold in_window in A. rewrite E in A. discriminate.
+    + destruct v_done as [D1 [D2 D3]]. repeat split; lia.
+    + apply Forall_app. split; [exact Hqi'|]. constructor; [|constructor]. simpl. split; [left; lia|]. intros _. repeat split; auto; lia.
+    + pose proof v_applied. lia.
+    + intros f Hf Hn. destruct (v_files f Hf Hn) as [A|[_ A]]; [left; exact A|].
+      exfalso. unfold in_window in A. rewrite E in A. discriminate.
+  - (* committed entries *)
+    assert (Hp0 : pend_idx s = 0) by (unfold pend_idx, pending; rewrite E, Qs; reflexivity).
+    assert (Hp1 : pend_idx s1 = 0) by (unfold pend_idx, pending, s1; proj; rewrite Qs; reflexivity).
+    assert (Hpubge : published s <= (if 0 <? r_cn r then r_clast r else published s)
+                     /\ (if 0 <? r_cn r then r_clast r else published s) <= hi
+                     /\ (sv = true -> (if 0 <? r_cn r then r_clast r else published s) <= last_commit (all_recs (segs s)))).
+    { destruct HV. rewrite Hp0 in *. destruct sv.
+      - destruct v_rd as [[F1 F2] [[Shi Sc] [Pl Pp]]]. unfold pubcl in Pp. destruct Pp as [Pp1 Pp2].
+        destruct (0 <? r_cn r) eqn:Qc; [|repeat split; auto; lia].
+        specialize (F2 ltac:(lia)). specialize (Sc ltac:(lia)). specialize (Pp2 ltac:(lia)). repeat split; auto; lia.
+      - destruct v_rd as [[F1 F2] [[Uhi [Uw [Uh Uc]]] [Pp Pov]]]. unfold pubcl in Pp. destruct Pp as [Pp1 Pp2].
+        destruct (0 <? r_cn r) eqn:Qc; [|split; [lia|]; split; [lia|]; intros; discriminate].
+        assert (Ho : overlap r = false) by (destruct (overlap r); simpl in Gov; [discriminate | reflexivity]).
+        pose proof (overlap_false_clast s r Ho ltac:(lia) (fun h => proj1 (F1 h)) (F2 ltac:(lia))).
+        specialize (Pp2 ltac:(lia)). split; [lia|]. split; [lia|]. intros; discriminate. }
+    destruct Hpubge as [G1 [G2 G3]].
+    assert (Hai' : app_inv s1 hi).
+    { apply (app_inv_pub s s1 hi); auto; try (unfold s1; proj; reflexivity); try lia; try (unfold s1; proj; rewrite ?Qs; exact G1). }
+    assert (Hqi' : queue_inv (set_queue s1 (queue s)) hi).
+    { apply (queue_inv_pub s (set_queue s1 (queue s)) hi); auto; try (unfold s1; proj; reflexivity); try lia.
+      all: try (unfold pend_idx, pending, s1; proj; rewrite ?E, ?Qs; reflexivity).
+      all: try (unfold s1; proj; rewrite ?Qs; first [exact G1 | lia]). }
+    assert (Hp1q : pend_idx (set_queue s1 (queue s)) = 0) by (unfold pend_idx, pending, s1; proj; rewrite ?Qs; reflexivity).
+    unfold app_inv, queue_inv, snap_pend, snap_done in Hai', Hqi'. rewrite Hp1 in Hai'. rewrite Hp1q in Hqi'. unfold s1 in *. clear s1. proj. rewrite ?Qs in *.
+    vinv_split HV; unfold snap_pend, snap_done in *; proj; rewrite ?Qs; pend_goal0 Qs; rewrite ?Hp0 in *; try assumption.
+    + unfold rd_inv, pubcl in *. proj. rewrite Qs. unfold rlast in *. proj. destruct sv.
+      * destruct v_rd as [Fx [Sx [Pl Pp]]]. split; [exact Fx|]. split; [exact Sx|]. split; [apply G3; reflexivity|].
+        destruct (0 <? r_cn r); [reflexivity | apply G3; reflexivity].
+      * destruct v_rd as [Fx [Ux [Pp Pov]]]. split; [exact Fx|]. split; [exact Ux|]. split.
+        -- destruct (0 <? r_cn r); [reflexivity | tauto].
+        -- intros _. destruct (overlap r); simpl in Gov; [discriminate | reflexivity].
+    + lia.
+    + destruct v_latest as [[A|[A _]] B]; [split; [left; exact A | exact B]|].
+      exfalso. unfold in_window in A. rewrite E in A. rewrite ?Qs in A. destruct sv; discriminate.
+    + destruct v_done as [D1 [D2 D3]]. repeat split; lia.
+    + apply Forall_app. split; [exact Hqi'|]. constructor; [|constructor]. simpl.
+      assert (Hs0 : r_snap r = 0) by (apply N.ltb_ge in Qs; lia). rewrite Hs0.
+      split; [destruct (0 <? r_cn r) eqn:Qc; [right; lia | left; lia] | intros; lia].
+    + lia.
+    + files_local.
 Qed.
 
 Lemma step_rd_append_after : forall c s s', Inv c s -> step c s EvRdAppendAfter = Ok s' -> Inv c s'.
 Proof.
-  intros c s s' HI H. start_step H hi HP HV. norm_guards.
-  2:{ rd_unreachable HV E. }
-  exists hi. split; [pframe s|].
-  unfold running in *. proj. destruct (rc s) eqn:R; try (not_running HV).
-  pose proof HV as HV0. destruct HV0 as [v_rd _ _ _ _ _ _ _ _ _ _ _ _ _ _ _].
-  unfold rd_inv in v_rd. rewrite E in v_rd. destruct v_rd as [[F1 [F2 F3]] [[Shi Sc] [Pl Pp]]].
-  destruct (v_done _ _ _ HV) as [D1 [D2 D3]].
-  vinv_split HV.
-  - unfold rd_inv. proj. unfold rlast in Shi. split; [exact Shi | exact Pl].
-  - repeat split; lia.
-  - destruct (app s); try lia; destruct v_app as [A1 A2]; split; auto; try lia;
-      try (intros h; specialize (A1 h); lia).
-  - intros i p Hl. destruct (v_sns i p Hl) as [S1 [S2 S3]]. split; [exact S1|]. split; [lia | exact S3].
+  intros c s s' HI H. start_step H hi HP HV; norm_guards.
+  - exists hi. split; [pframe s|].
+    unfold running in *. proj. destruct (rc s) eqn:R; try (not_running HV).
+    match goal with G : (0 <? r_snap r) = false |- _ => rename G into Qs end.
+    pose proof (v_rd _ _ _ HV) as v_rd.
+    unfold rd_inv in v_rd. rewrite E, Qs in v_rd. destruct v_rd as [[F1 F2] [[Shi Sc] [Pl Pp]]].
+    destruct (v_done _ _ _ HV) as [D1 [D2 D3]].
+    assert (Hp0 : pend_idx s = 0) by (unfold pend_idx, pending; rewrite E, Qs; reflexivity).
+    pose proof (vinv_app_inv _ _ _ HV) as Hai. pose proof (vinv_queue_inv _ _ _ HV) as Hqi.
+    match goal with |- VInv c ?st _ => set (s1 := st) end.
+    assert (Hp1 : pend_idx s1 = 0) by (unfold pend_idx, pending, s1; proj; reflexivity).
+    assert (Hai' : app_inv s1 hi) by (apply (app_inv_done s s1 hi); auto; try (left; congruence); unfold s1; proj; lia).
+    assert (Hqi' : queue_inv s1 hi) by (apply (queue_inv_same s s1 hi); auto; left; congruence).
+    unfold app_inv, queue_inv, snap_pend, snap_done in Hai', Hqi'. rewrite Hp1 in Hai', Hqi'. unfold s1 in *. clear s1. proj.
+    vinv_split HV; unfold snap_pend, snap_done in *; proj; pend_goal0 Qs; rewrite ?Hp0 in *; try assumption.
+    + unfold rd_inv. proj. unfold rlast in Shi. split; [exact Shi | exact Pl].
+    + destruct v_latest as [[A|[A _]] B]; [split; [left; exact A | exact B]|].
+      exfalso. unfold in_window in A. rewrite E, Qs in A. discriminate.
+    + pose proof v_pub. repeat split; lia.
+    + intros i p Hl. destruct (v_sns i p Hl) as [S1 [S2 S3]]. split; [exact S1|]. split; [lia | exact S3].
+    + files_local.
+  - (* the end of a Ready with an incoming snapshot: the log now ends at the snapshot *)
+    exists hi. split; [pframe s|].
+    unfold running in *. proj. destruct (rc s) eqn:R; try (not_running HV).
+    pose proof (v_rd _ _ _ HV) as v_rd.
+    unfold rd_inv in v_rd. rewrite E in v_rd. destruct v_rd as [Hs [Hhi [Hpub [Hrl Hnw]]]].
+    destruct (v_done _ _ _ HV) as [D1 [D2 D3]].
+    pose proof (pinv_lc0 _ _ HP) as Hlc.
+    assert (Hp0 : pend_idx s = 0) by (unfold pend_idx, pending; rewrite E; reflexivity).
+    pose proof (vinv_app_inv _ _ _ HV) as Hai. pose proof (vinv_queue_inv _ _ _ HV) as Hqi.
+    match goal with |- VInv c ?st _ => set (s1 := st) end.
+    assert (Hp1 : pend_idx s1 = 0) by (unfold pend_idx, pending, s1; proj; reflexivity).
+    assert (Hai' : app_inv s1 hi) by (apply (app_inv_done s s1 hi); auto; try (left; congruence); unfold s1; proj; lia).
+    assert (Hqi' : queue_inv s1 hi) by (apply (queue_inv_same s s1 hi); auto; left; congruence).
+    unfold app_inv, queue_inv, snap_pend, snap_done in Hai', Hqi'. rewrite Hp1 in Hai', Hqi'. unfold s1 in *. clear s1. proj.
+    vinv_split HV; unfold snap_pend, snap_done in *; proj; pend_goal0 E; rewrite ?Hp0 in *; try assumption.
+    + unfold rd_inv. proj. split; [exact Hhi | lia].
+    + destruct v_latest as [[A|[A _]] B]; [split; [left; exact A | exact B]|].
+      exfalso. unfold in_window in A. rewrite E in A. discriminate.
+    + repeat split; lia.
+    + intros i p Hl. destruct (v_sns i p Hl) as [S1 [S2 S3]]. split; [exact S1|]. split; [lia | exact S3].
+    + files_local.
 Qed.
 
 (* ---------- the apply loop ---------- *)
@@ -353,14 +596,26 @@ Qed.
 Lemma step_ap_before : forall c s s' a n sn, Inv c s -> step c s (EvApBefore a n sn) = Ok s' -> Inv c s'.
 Proof.
   intros c s s' a n sn HI H. start_step H hi HP HV; norm_guards.
-  { (* a batch that carries a snapshot: not in the queue of a replica that never gets one *)
-    exfalso. rewrite E1 in HV. destruct HV. rewrite E0 in v_queue. inversion v_queue as [|x y [_ X] Y]; subst.
-    rewrite X in E3. discriminate. }
-  exists hi. split; [pframe s|].
-  unfold running in *. proj. destruct (rc s) eqn:R; try discriminate.
-  vinv_split HV.
-  - rewrite E0 in v_queue. inversion v_queue; assumption.
-  - rewrite E in v_app. rewrite E0 in v_queue. inversion v_queue as [|x y [X1 X2] Y]; subst. split; assumption.
+  - (* the incoming snapshot is taken from the queue: applySnapshot begins with PrepareSnapshot *)
+    exists hi. split; [pframe s|].
+    unfold running in *. proj. destruct (rc s) eqn:R; try discriminate.
+    destruct (v_done _ _ _ HV) as [D1 [D2 D3]].
+    assert (Hq : (b_n b = 0 \/ b_last b <= published s /\ b_last b <= hi) /\ (0 < b_snap b -> b_n b = 0 /\ snap_pend s hi (b_snap b))).
+    { pose proof (v_queue _ _ _ HV) as Q. rewrite E0 in Q. inversion Q; assumption. }
+    destruct Hq as [_ Hq]. match goal with G : (0 <? b_snap b) = true |- _ => apply N.ltb_lt in G; specialize (Hq G) end.
+    destruct Hq as [_ Hsp].
+    vinv_split HV; unfold snap_pend, snap_done in *; proj;
+      repeat match goal with |- context [pend_idx ?t] => tryif is_var t then fail else replace (pend_idx t) with (pend_idx s) by (unfold pend_idx, pending; proj; reflexivity) end;
+      try assumption.
+    + rewrite E0 in v_queue. inversion v_queue; assumption.
+    + rewrite E in v_app. destruct Hsp as [X1 [X2 X3]]. repeat split; auto; lia.
+  - exists hi. split; [pframe s|].
+    unfold running in *. proj. destruct (rc s) eqn:R; try discriminate.
+    vinv_split HV; unfold snap_pend, snap_done in *; proj;
+      repeat match goal with |- context [pend_idx ?t] => tryif is_var t then fail else replace (pend_idx t) with (pend_idx s) by (unfold pend_idx, pending; proj; reflexivity) end;
+      try assumption.
+    + rewrite E0 in v_queue. inversion v_queue; assumption.
+    + rewrite E in v_app. rewrite E0 in v_queue. inversion v_queue as [|x y [X1 X2] Y]; subst. split; assumption.
 Qed.
 
 Lemma step_ap_after : forall c s s' a, Inv c s -> step c s (EvApAfter a) = Ok s' -> Inv c s'.
@@ -371,17 +626,19 @@ Proof.
     unfold running in *. proj. destruct (rc s) eqn:R; try (not_running HV).
     vinv_split HV. rewrite E in v_app. destruct v_app as [A1 A2]. split; [intros; exact A1 | lia].
   - unfold running in *. proj. destruct (rc s) eqn:R; try (not_running HV).
-    pose proof HV as HV0. destruct HV0 as [_ v_pub _ _ _ _ _ v_applied v_app v_engine v_snapi _ _ _ _ _].
-    rewrite E in v_app. destruct v_app as [A1 A2].
+    pose proof (v_app _ _ _ HV) as v_app. pose proof (v_engine _ _ _ HV) as v_engine. pose proof (v_snapi _ _ _ HV) as v_snapi.
+    rewrite E in v_app, v_engine. destruct v_app as [A1 A2].
     assert (Hbn : b_n b <> 0) by (apply N.eqb_neq; assumption).
-    assert (Hbl : b_last b <= published s) by (destruct A2; [contradiction | assumption]).
+    assert (Hbl : b_last b <= published s /\ b_last b <= hi) by (destruct A2; [contradiction | assumption]).
+    destruct (v_done _ _ _ HV) as [D1 [D2 D3]].
     exists hi. split.
     + destruct HP. constructor; proj; auto. lia.
     + unfold running. proj. rewrite R. vinv_split HV.
-      * lia.
+      * pose proof v_applied. lia.
       * split; [intros; contradiction | lia].
       * intros l0 Hl0. injection Hl0 as <-. rewrite (v_engine l E2). symmetry. apply range_app; lia.
-      * lia.
+      * destruct v_snapi0 as [S1 [S2|S2]]; [split; [lia | left; exact S2]|].
+        unfold snap_busy in S2. rewrite E in S2. contradiction.
 Qed.
 
 Lemma step_ap_raftdone : forall c s s' a, Inv c s -> step c s (EvApRaftDone a) = Ok s' -> Inv c s'.
@@ -436,9 +693,10 @@ Proof.
   rewrite Hfl in Gapp. simpl in Gapp.
   destruct (app s) eqn:Eapp; try discriminate.
   unfold running in *. proj. destruct (rc s) eqn:R; try (not_running HV).
-  pose proof HV as HV0. destruct HV0 as [_ _ _ _ _ _ _ _ v_app v_engine v_snapi v_sns _ _ _ _].
-  rewrite Eapp in v_app. destruct v_app as [Aap Acache].
-  assert (Hnn : newest (segs s) < applied s) by lia.
+  pose proof HV as HV0. destruct HV0 as [_ _ _ _ _ _ _ _ v_app v_engine v_snapi v_sns _ _ _ _ _].
+  rewrite Eapp in v_app, v_engine. destruct v_app as [Aap Acache].
+  assert (Hnn : newest (segs s) < applied s).
+  { destruct v_snapi as [S1 [S2|S2]]; [lia|]. unfold snap_busy in S2. rewrite Eapp in S2. contradiction. }
   rewrite Acache, filter_not_in_nil.
   exists hi. split.
   - apply (pinv_files s); try reflexivity; auto; proj; try (destruct HP; assumption).
@@ -447,12 +705,14 @@ Proof.
     + intros i l0 Hl. destruct (N.eq_dec i (applied s)) as [->|Hne].
       * rewrite lookup_remove_ckpt_eq in Hl. discriminate.
       * rewrite lookup_remove_ckpt_ne in Hl by exact Hne. eapply p_ckpts; eauto.
-  - unfold running. proj. rewrite R. vinv_split HV.
+  - unfold running. proj. rewrite R. destruct (v_done _ _ _ HV) as [D1 [D2 D3]]. vinv_split HV.
+    + apply (rd_inv_files s); auto; [right; intros; congruence|]. unfold ckpt_ok. proj. intros i Hi Ei Hc. rewrite lookup_remove_ckpt_ne; [exact Hc|].
+      pose proof (pend_above _ _ v_rd ltac:(lia)). lia.
     + destruct v_latest as [L1 L2]. split; [exact L1 | intros; discriminate].
     + split; [reflexivity|]. split; [exact Aap | lia].
     + intros i p Hl. destruct (v_sns i p Hl) as [S1 [S2 [S3 [S4 [S5 [S6 S7]]]]]].
       repeat split; auto. intros Hn Hp. rewrite lookup_remove_ckpt_ne by lia. auto.
-    + split; [apply v_engine; assumption|]. split; [exact Hnn|]. split.
+    + split; [apply v_engine; assumption|]. split; [lia|]. split.
       * intros k p Hl. destruct (v_sns k p Hl) as [S1 [S2 [S3 _]]]. split; [lia | intros; lia].
       * split; [apply lookup_remove_ckpt_eq | intros j Hj; injection Hj as <-; reflexivity].
 Qed.
@@ -461,8 +721,8 @@ Lemma step_ck_save_after : forall c s s', Inv c s -> step c s EvCkSaveAfter = Ok
 Proof.
   intros c s s' HI H. start_step H hi HP HV.
   unfold running in *. proj. destruct (rc s) eqn:R; try (not_running HV).
-  pose proof HV as HV0. destruct HV0 as [_ _ _ _ _ _ _ _ _ _ _ v_sns _ _ _ v_ck].
-  rewrite E in v_ck. destruct v_ck as [K1 [K2 [K3 [K4 K5]]]].
+  pose proof HV as HV0. destruct HV0 as [_ _ _ _ _ _ _ _ _ _ _ v_sns _ _ _ _ v_ck].
+  rewrite E in v_ck. destruct v_ck as [K1 [[K2 K2'] [K3 [K4 K5]]]].
   exists hi. split.
   - apply (pinv_files s); try reflexivity; auto; proj; try (destruct HP; assumption).
     + intros Hp. destruct (p_file _ _ HP Hp) as [A B]. split; [exact A|]. rewrite lookup_set_ne by lia. exact B.
@@ -470,6 +730,8 @@ Proof.
       * rewrite lookup_cons, N.eqb_refl in Hl. injection Hl as <-. exact K1.
       * rewrite lookup_set_ne in Hl by exact Hne. eapply p_ckpts; eauto.
   - unfold running. proj. rewrite R. vinv_split HV.
+    + apply (rd_inv_files s); auto. unfold ckpt_ok. proj. intros j Hj Ej Hc. rewrite lookup_set_ne; [exact Hc|].
+      pose proof (pend_above _ _ v_rd ltac:(lia)). lia.
     + destruct v_latest as [L1 L2]. split; [exact L1 | intros; discriminate].
     + intros j p Hl. destruct (v_sns j p Hl) as [S1 [S2 [S3 [S4 [S5 [S6 S7]]]]]].
       repeat split; auto. intros Hn Hp. destruct (N.eq_dec j i) as [->|Hne].
@@ -481,8 +743,8 @@ Lemma step_ck_partial : forall c s s', Inv c s -> step c s EvCkPartial = Ok s' -
 Proof.
   intros c s s' HI H. start_step H hi HP HV.
   unfold running in *. proj. destruct (rc s) eqn:R; try (not_running HV).
-  pose proof HV as HV0. destruct HV0 as [_ _ _ _ _ _ _ _ _ _ _ v_sns _ _ _ v_ck].
-  rewrite E in v_ck. destruct v_ck as [K1 [K2 [K3 [K4 K5]]]].
+  pose proof HV as HV0. destruct HV0 as [_ _ _ _ _ _ _ _ _ _ _ v_sns _ _ _ _ v_ck].
+  rewrite E in v_ck. destruct v_ck as [K1 [[K2 K2'] [K3 [K4 K5]]]].
   exists hi. split.
   - apply (pinv_files s); try reflexivity; auto; proj; try (destruct HP; assumption).
     + intros Hp. destruct (p_file _ _ HP Hp) as [A B]. split; [exact A|]. rewrite lookup_set_ne by lia. exact B.
@@ -490,27 +752,32 @@ Proof.
       * rewrite lookup_cons, N.eqb_refl in Hl. discriminate.
       * rewrite lookup_set_ne in Hl by exact Hne. eapply p_ckpts; eauto.
   - unfold running. proj. rewrite R. vinv_split HV.
+    + apply (rd_inv_files s); auto. unfold ckpt_ok. proj. intros j Hj Ej Hc. rewrite lookup_set_ne; [exact Hc|].
+      pose proof (pend_above _ _ v_rd ltac:(lia)). lia.
     + intros j p Hl. destruct (v_sns j p Hl) as [S1 [S2 [S3 [S4 [S5 [S6 S7]]]]]].
       repeat split; auto. intros Hn Hp. destruct (N.eq_dec j i) as [->|Hne].
       * destruct (K3 i p Hl) as [_ K]. specialize (K eq_refl). contradiction.
       * rewrite lookup_set_ne by exact Hne. auto.
-    + rewrite E. split; [exact K1|]. split; [exact K2|]. split; [exact K3|]. split; [|exact K5].
+    + rewrite E. split; [exact K1|]. split; [split; assumption|]. split; [exact K3|]. split; [|exact K5].
       rewrite lookup_cons, N.eqb_refl. reflexivity.
 Qed.
 
-Lemma step_ck_purge_before : forall c s s', Inv c s -> step c s EvCkPurgeBefore = Ok s' -> Inv c s'.
+(* the purge takes the latest snapshot index as its bound: by the schedule hypothesis not the index of an incoming
+   snapshot whose record is not valid yet *)
+Lemma step_ck_purge_before : forall c s s', in_window s = 0%nat -> Inv c s -> step c s EvCkPurgeBefore = Ok s' -> Inv c s'.
 Proof.
-  intros c s s' HI H. start_step H hi HP HV.
+  intros c s s' Hw HI H. start_step H hi HP HV.
   exists hi. split; [pframe s|].
   unfold running in *. proj. destruct (rc s) eqn:R; try (not_running HV).
-  vinv_split HV. destruct v_latest as [L1 L2]. split; [exact L1|]. intros lat Hl. injection Hl as <-. exact L1.
+  vinv_split HV. destruct v_latest as [L1 L2]. split; [exact L1|]. intros lat Hl. injection Hl as <-.
+  destruct L1 as [L1|[L1 _]]; [exact L1 | rewrite Hw in L1; discriminate].
 Qed.
 
 Lemma step_ck_purge_one : forall c s s', Inv c s -> step c s EvCkPurgeOne = Ok s' -> Inv c s'.
 Proof.
   intros c s s' HI H. start_step H hi HP HV.
   unfold running in *. proj. destruct (rc s) eqn:R; try (not_running HV).
-  pose proof HV as HV0. destruct HV0 as [_ _ _ v_latest _ _ _ _ _ _ _ v_sns _ _ _ _].
+  pose proof HV as HV0. destruct HV0 as [_ _ _ v_latest _ _ _ _ _ _ _ v_sns _ _ _ _ _].
   destruct v_latest as [L1 L2]. specialize (L2 lat E).
   match goal with G : purge_next _ _ _ = Some ?x |- _ => destruct (purge_next_spec _ _ _ _ G) as [Px _]; rename x into vx end.
   exists hi. split.
@@ -519,16 +786,18 @@ Proof.
     + intros j l0 Hl. destruct (N.eq_dec j vx) as [->|Hne].
       * rewrite lookup_remove_ckpt_eq in Hl. discriminate.
       * rewrite lookup_remove_ckpt_ne in Hl by exact Hne. eapply p_ckpts; eauto.
-  - unfold running. proj. rewrite R. vinv_split HV.
-    intros j p Hl. destruct (v_sns j p Hl) as [S1 [S2 [S3 [S4 [S5 [S6 S7]]]]]].
-    repeat split; auto. intros Hn Hp. rewrite lookup_remove_ckpt_ne by lia. auto.
+  - unfold running. proj. rewrite R. pose proof (pinv_newest_le_hi _ _ HP) as Hnh. vinv_split HV.
+    + apply (rd_inv_files s); auto. unfold ckpt_ok. proj. intros j Hj Ej Hc. rewrite lookup_remove_ckpt_ne; [exact Hc|].
+      pose proof (pend_above _ _ v_rd ltac:(lia)). lia.
+    + intros j p Hl. destruct (v_sns j p Hl) as [S1 [S2 [S3 [S4 [S5 [S6 S7]]]]]].
+      repeat split; auto. intros Hn Hp. rewrite lookup_remove_ckpt_ne by lia. auto.
 Qed.
 
 Lemma step_ck_purge_after : forall c s s', Inv c s -> step c s EvCkPurgeAfter = Ok s' -> Inv c s'.
 Proof.
   intros c s s' HI H. start_step H hi HP HV.
   unfold running in *. proj. destruct (rc s) eqn:R; try (not_running HV).
-  pose proof HV as HV0. destruct HV0 as [_ _ _ v_latest _ _ _ _ _ _ _ v_sns _ _ _ _].
+  pose proof HV as HV0. destruct HV0 as [_ _ _ v_latest _ _ _ _ _ _ _ v_sns _ _ _ _ _].
   destruct v_latest as [L1 L2]. specialize (L2 lat E).
   assert (Hv : forall j, newest (segs s) <= j -> ~ In j (purge_victims (eff_keep_ckpt c) lat (map fst (ckpts s)))).
   { intros j Hj Hin. apply purge_victims_lt in Hin. lia. }
@@ -536,7 +805,9 @@ Proof.
   - apply (pinv_files s); try reflexivity; auto; proj; try (destruct HP; assumption).
     + intros Hp. destruct (p_file _ _ HP Hp) as [A B]. split; [exact A|]. rewrite lookup_purge_ckpts by (apply Hv; lia). exact B.
     + intros j l0 Hl. apply lookup_purge_ckpts_some in Hl. eapply p_ckpts; eauto.
-  - unfold running. proj. rewrite R. vinv_split HV.
+  - unfold running. proj. rewrite R. pose proof (pinv_newest_le_hi _ _ HP) as Hnh. vinv_split HV.
+    + apply (rd_inv_files s); auto. unfold ckpt_ok. proj. intros j Hj Ej Hc. rewrite lookup_purge_ckpts; [exact Hc|].
+      apply Hv. pose proof (pend_above _ _ v_rd ltac:(lia)). lia.
     + split; [exact L1 | intros; discriminate].
     + intros j p Hl. destruct (v_sns j p Hl) as [S1 [S2 [S3 [S4 [S5 [S6 S7]]]]]].
       repeat split; auto. intros Hn Hp. rewrite lookup_purge_ckpts by (apply Hv; lia). auto.
